@@ -228,7 +228,16 @@ AEvent.methods["wait"] = amethod("asyncio.Event.wait", {"self": AEvent}, doc="aw
                                  raises={"asyncio.CancelledError": lambda c, self, exc: True}, exact_raises=True)
 
 
+# ---- threading.Semaphore / BoundedSemaphore: a BLOCKING primitive -------------------------------------------------------------------
+Sem = TAbs("threading.Semaphore", fields={}, events=False)
+Sem.methods["acquire"] = amethod("Semaphore.acquire", {"self": Sem, "*args": None, "**kw": None}, doc="acquire(): may BLOCK the calling thread until another thread releases (event `blocking-acquire`)",
+                                 result=BOOL, emits=lambda c, ctx, self, **k: ctx.emit("blocking-acquire", self), has_events=True)
+Sem.methods["release"] = amethod("Semaphore.release", {"self": Sem, "*args": None}, emits=lambda c, ctx, self, **k: ctx.emit("semaphore-release", self), has_events=True,
+                                 raises={"ValueError": lambda c, self, exc, **k: True}, exact_raises=True)
+
+
 def install_runtime_types(E):
+    E.shared_types["threading.Semaphore"] = Sem
     E.shared_types.update({"threading.Event": TEvent, "asyncio.Event": AEvent, "asyncio.Loop": ALoop, "asyncio.Future": Future, "threading.Lock": Lock})
 
 
